@@ -4,7 +4,8 @@
 // observe: the Go race detector (reports collected from its log files), a
 // shadow-result monitor (every result is compared with the result the same
 // (operation, input) gave when run alone, sequentially), and a SHA-256 canary
-// over every shared buffer.
+// over every shared buffer including the guard bytes around it (the spare
+// capacity of the views handed to the library).
 package c20
 
 import (
@@ -77,18 +78,21 @@ func init() {
 	runner.Register(&runner.Prop{
 		ID: "C20",
 		Rule: "One case = one (G goroutines, GOMAXPROCS P) configuration (quick: (4,2) (16,8) (64,16); thorough: {4,16,64}x{2,8,16}, each 3 times with different sub-seeds) run in a -race worker process. " +
-			"Pool of shared buffers = 33 repo test files (progressive, fragmented, init+segment concatenations, cenc/cbcs/PIFF encrypted, HEVC, subtitles), boxes cut from them by the reference walker (<=3 per type), video samples / parameter sets / SEI NAL units re-located inside the shared file buffers, Annex B streams (plus odd-offset views and 4-byte-start-code variants), shared key/iv/kid/pssh buffers. " +
+			"Pool of shared buffers = 33 repo test files (progressive, fragmented, init+segment concatenations, cenc/cbcs/PIFF encrypted, HEVC, subtitles), 3 hand-made senc-probe segments, a 1.2 MiB synthetic audio file, boxes cut from the files by the reference walker (<=3 per type), hand-made dac3 boxes (acmod 0..7 x lfeon) and dec3 boxes (acmod 0..7 x lfeon x {no dependent substream, two chan_loc sets; some with a second independent substream}) as views into one shared buffer, 9 hand-made init segments carrying them (one audio track per configuration: all acmods with / without LFE for AC-3, dependent-substream sets for EC-3, and single-track 3.0 / 5.1 / 7.1 ones), video samples / parameter sets / SEI NAL units re-located inside the shared file buffers, Annex B streams (plus odd-offset views and 4-byte-start-code variants), shared key/iv16/iv8/kid/pssh buffers. " +
+			"Every shared buffer lives in an arena [32-byte guard | data | 96-byte guard] (non-zero pattern). Every execution has a capacity mode chosen from the goroutine's PRNG (half of the executions each; reference passes: from a hash of the candidate index, opposite in forward and reverse order; cold round: goroutines 0,2 tight and 1,3 roomy): 'tight' = every caller-owned slice handed to the library has cap == len; 'roomy' = the same bytes as a sub-slice WITH spare capacity: operand data, box / sample / NAL-unit views, parameter-set lists (the [][]byte lists themselves get 3 spare slots holding a sentinel), key, IVs (8-byte IV: len 8, cap 104), KID and pssh bytes keep the following bytes of their arena (rest of the file + tail guard) as capacity; the per-goroutine recycled key buffer and the CopySampleData work buffer are private buffers guarded on both sides and checked after every call (guard/<buffer>). In a quarter of the executions an unvaried shared key is handed to the library directly instead of through the private key buffer. " +
 			"Reference results: every (kind, input, variant) is executed alone by three FRESH single-goroutine processes that run the whole list in forward, reverse and permuted order; it becomes a spec if it succeeds; results that differ between the orders are a hidden-state violation. The worker itself calls no library operation before its first concurrent round (cold start: lazy initialisation and caches are met concurrently). " +
 			"The first case of every worker process starts with a cold lockstep round: for every spec (PRNG order) 4 goroutines are released together and all execute that same spec once, so each lazily initialised table or cache on a covered path is first met by goroutines that are unordered with respect to each other. " +
 			"A case then runs rounds: each round starts G goroutines behind a barrier which each loop over PRNG-chosen operations (kind uniformly, then spec uniformly; cheap kinds in batches) on the shared buffers and compare every result with the reference. " +
 			"Even rounds (incl. the first) are 'blind' (no harness synchronisation between goroutines, so the happens-before race detector keeps its full reach), odd rounds are 'tracked' (atomic in-flight counters per kind sampled at operation start give the overlapping kind pairs). After the minimum number of rounds, tracked rounds are added up to the cap until every pair of kinds has overlapped in this case. " +
-			"In-place operations (EncryptFragment, Decrypt*, ConvertSampleToByteStream, 4-byte-start-code ConvertByteStreamToNaluSample) only run on reader-path decodes or private copies; everything else runs on SliceReader decodes of / directly on the shared buffers. Before and after every operation the goroutine registers a range read of its operand buffers with the race detector (witness read). SHA-256 canary over all shared buffers after every round and after every reference pass. " +
+			"In-place operations (EncryptFragment, Decrypt*, ConvertSampleToByteStream, 4-byte-start-code ConvertByteStreamToNaluSample) only run on reader-path decodes or private copies; everything else runs on SliceReader decodes of / directly on the shared buffers. Box operations additionally call the inspection methods of the decoded box (dac3/dec3: ChannelInfo, BitrateBps, SamplingFrequency, GetChannelListFromACMod; boxSR also Set{AC3,EC3}Descriptor on a fresh init segment + encode), info also on the sample descriptions of every track. Before and after every operation the goroutine registers a range read of its operand buffers INCLUDING up to 4 KiB of their spare capacity, of the spare list slots and of the shared crypto material with the race detector (witness read). SHA-256 canary over the WHOLE arena of every shared buffer (all bytes up to the capacity of any view; a change only outside the data is keyed canary-cap/<buffer>) and over the sentinel slots after every round and after every reference pass. " +
 			"evaluations = compared operation results; distinct_nontrivial = tracked rounds in which at least one pair of operations overlapped and results were compared. Race reports are read from the GORACE log files of all workers; a deliberate harness race in every worker's setup proves the reporting channel.",
 		Assumptions: []string{
 			"schedules are those the Go scheduler produced under the listed (G, GOMAXPROCS) settings on this machine; the race detector's bounded shadow history can miss a pair separated by many other accesses",
 			"'read-only sharing' excludes the documented in-place operations on structures aliasing a shared buffer (DESIGN.md C20): those run on copies",
 			"SetBoxDecoder/RemoveBoxDecoder are never called",
-			"the reference results come from fresh single-goroutine processes of the same binary (same pool, same operation code), executed in three different orders",
+			"the reference results come from fresh single-goroutine processes of the same binary (same pool, same operation code), executed in three different orders and with different capacity modes per candidate",
+			"a caller-owned slice is read-only for the library up to its CAPACITY (writing behind len into the caller's array is a write to the shared input), except for the documented work buffer of CopySampleData, which may be written up to its length",
+			"the capacity of a slice never influences a result: the same reference result is demanded in tight and roomy mode",
 		},
 		ParentInit: func(env *runner.Env) error {
 			return os.Setenv("GORACE", "halt_on_error=0 exitcode=0 log_path="+filepath.Join(env.Scratch, "race"))
